@@ -207,9 +207,69 @@ func (w *World) mustSink(fn *ssa.Function, v ssa.Value, from ssa.Instruction, sp
 		if errResultIndex(fn) >= 0 && w.errState(ret) == triNonNil {
 			continue
 		}
+		// the exit may be reachable in the flow graph only: walked path by path (nil
+		// tests a path passed are remembered, one error variable shared by several
+		// steps is followed) every successful path hands the value over
+		if w.sinkOnPaths(fn, from, consumes) {
+			continue
+		}
 		return &sinkResult{ok: false, why: fmt.Sprintf("%s can return successfully at %s without handing the value over", w.FName(fn), w.InstrPos(ret))}
 	}
 	return res
+}
+
+// sinkOnPaths: on every successful path of fn that passes `from` (the entry when
+// nil), a consuming instruction follows it.
+func (w *World) sinkOnPaths(fn *ssa.Function, from ssa.Instruction, consumes map[ssa.Instruction]bool) bool {
+	if w.inSinkOnPaths {
+		return false
+	}
+	w.inSinkOnPaths = true
+	defer func() { w.inSinkOnPaths = false }()
+	ev := func(in ssa.Instruction) string {
+		switch {
+		case from != nil && in == from:
+			return "FROM"
+		case consumes[in]:
+			return "SINK"
+		}
+		return ""
+	}
+	savedDepth := w.enumDepth
+	w.enumDepth = 1 // events are instructions of fn itself
+	saved := w.branchMarkers
+	w.branchMarkers = false
+	paths, complete := w.enumPaths(fn, func(ssa.Value) (bool, bool) { return false, false }, ev, 4000)
+	w.branchMarkers = saved
+	w.enumDepth = savedDepth
+	if !complete {
+		return false
+	}
+	n := 0
+	for _, p := range paths {
+		if p.Term != "ok" && p.Term != "unknown" {
+			continue
+		}
+		started := from == nil
+		sunk := false
+		for _, e := range p.Events {
+			switch e {
+			case "FROM":
+				started, sunk = true, false
+			case "SINK":
+				if started {
+					sunk = true
+				}
+			}
+		}
+		if started {
+			n++
+			if !sunk {
+				return false
+			}
+		}
+	}
+	return n > 0
 }
 
 // sinksBeforeBackEdge: from `at`, no path reaches the loop header hdr again
